@@ -201,6 +201,10 @@ LOOPS = ("WhileStmt", "DoStmt", "ForStmt")
 C_SUFFIXES = (".c", ".cc", ".cpp")
 
 
+# files whose static character arrays are inventoried (a path kept in static storage across the master apply can be
+# overwritten by a re-entrant call: seeded change C15-5)
+STATIC_FILES = ("lib/efuns/file_utils.c", "lib/efuns/file.c", "lib/efuns/ed.c", "lib/lpc/program/binaries.c",
+                "lib/lpc/lex.c", "lib/lpc/preprocess.c", "lib/lpc/object.c", "lib/efuns/dumpstat.c", "lib/efuns/dump_prog.c")
 LITERAL_FNS = ("legal_path", "check_valid_path", "inc_lexically_normal", "inc_open", "match_string")
 
 
@@ -950,7 +954,28 @@ def _analyze_file(job):
         fa = os.path.realpath(f)
         if fa == main_abs or (f.endswith(C_SUFFIXES) and relname(f) is not None):
             fns.append((n, f, relname(f)))
-    out = dict(rel=rel, included=sorted(included), sites=[], calls=[], addr=[], defs=[], cvp=[], lits=[], ext=[])
+    out = dict(rel=rel, included=sorted(included), sites=[], calls=[], addr=[], defs=[], cvp=[], lits=[], ext=[], statics=[])
+
+    def char_array(node):
+        q = qual(node)
+        return bool(re.match(r"^(const\s+)?(unsigned\s+|signed\s+)?char\s*\[", q))
+
+    def walk_statics(node, fname, frel):
+        for c in node.get("inner") or []:
+            if not isinstance(c, dict):
+                continue
+            if c.get("kind") == "VarDecl" and c.get("storageClass") == "static" and char_array(c):
+                out["statics"].append(dict(file=frel, fn=fname, name=c.get("name"), type=qual(c)))
+            walk_statics(c, fname, frel)
+
+    # character arrays that outlive a call: file scope (any linkage) and function-scope `static`
+    for n in root.get("inner") or []:
+        if n.get("kind") == "VarDecl" and char_array(n) and n.get("storageClass") != "extern":
+            loc = n.get("loc") or {}
+            loc = loc.get("expansionLoc") or loc
+            f = loc.get("_f")
+            if f and (os.path.realpath(f) == main_abs or (f.endswith(C_SUFFIXES) and relname(f) is not None)):
+                out["statics"].append(dict(file=relname(f), fn="", name=n.get("name"), type=qual(n)))
     fobjs = []
     for (n, f, frel) in fns:
         try:
@@ -960,6 +985,7 @@ def _analyze_file(job):
         fobjs.append((n, fn, frel))
         tu.fns[fn.name] = fn
     for (n, fn, frel) in fobjs:
+        walk_statics(n, fn.name, frel)
         out["defs"].append(dict(name=fn.name, file=frel, tu=rel, static=fn.static, nparams=len(fn.params),
                                 line=(n.get("loc") or {}).get("_l") or fn.line(n)))
         callee_nodes = set()
@@ -1138,8 +1164,10 @@ def analyze(repo, bdir, include_flags, overrides=None, jobs=None):
     sites, calls, addr, defs = [], [], [], []
     cvp_calls, lit_rows = [], []
     ext_callees = set()
+    statics = []
     for r in results:
         ext_callees.update(r.get("ext", []))
+        statics += r.get("statics", [])
         cvp_calls += r.get("cvp", [])
         lit_rows += r.get("lits", [])
         scanned.update(r["included"])
@@ -1239,7 +1267,9 @@ def analyze(repo, bdir, include_flags, overrides=None, jobs=None):
                 sites=sites, calls=rows, fsEfuns=fs_efuns, loaderEfuns=loader_efuns, mediationApplies=med_applies,
                 cvpCalls=sorted(set((c["file"], c["fn"], c["op"], c["flag"]) for c in cvp_calls)),
                 literals=sorted(set((l["fn"], tuple(l["lits"])) for l in lit_rows)),
-                extCallees=sorted(ext_callees - set(FS_CALLEES) - set(FILLS) - set(PASSTHROUGH)))
+                extCallees=sorted(ext_callees - set(FS_CALLEES) - set(FILLS) - set(PASSTHROUGH)),
+                staticBufs=sorted(set((x["file"], x["fn"], x["name"], x["type"]) for x in statics
+                                      if x["file"] in STATIC_FILES)))
 
 
 def dedup(rows, keys):
@@ -1350,6 +1380,10 @@ def render(res):
                      "functions declared outside the repository (libc, builtins) that take a character pointer (or are "
                      "variadic) and are called from the scanned files, other than the file-system callees searched "
                      "for, the buffer-filling functions and the strchr family the translator interprets"))
+    out.append(llist("staticBufs", "(String × String × String × String)",
+                     ["(%s, %s, %s, %s)" % tuple(lstr(x) for x in b) for b in res.get("staticBufs", [])],
+                     "character arrays with static storage duration in the files of the file efuns, the editor, the "
+                     "saved-binary code and the lexer: (file, function or empty = file scope, name, type)"))
     out.append(llist("loaderEfuns", "String", [lstr(x) for x in res.get("loaderEfuns", [])],
                      "efun implementations that reach the file system only through load_object / #include / "
                      "saved binaries"))
